@@ -9,6 +9,7 @@ import (
 	"math/rand"
 	"runtime"
 	"sync"
+	"sync/atomic"
 	"time"
 )
 
@@ -93,24 +94,28 @@ func Atomically(f func()) { atomMu.Lock(); defer atomMu.Unlock(); f() }
 // tracked per goroutine through a token the caller does not see, so HeldByMe is approximate).
 type Locker struct {
 	m        sync.Mutex
-	held     bool
+	held     atomic.Bool
 	Unlocks  int
-	OnUnlock func()
+	OnUnlock func() // set before the lock is shared; removed only through ClearOnUnlock
 }
 
-func (l *Locker) Lock() { l.m.Lock(); l.held = true }
+func (l *Locker) Lock() { l.m.Lock(); l.held.Store(true) }
 
 func (l *Locker) Unlock() {
-	l.held = false
+	l.held.Store(false)
 	l.m.Unlock()
 	atomMu.Lock()
 	l.Unlocks++
+	f := l.OnUnlock
 	atomMu.Unlock()
-	if l.OnUnlock != nil {
-		l.OnUnlock()
+	if f != nil {
+		f()
 	}
 }
 
-func (l *Locker) HeldByMe() bool { return l.held }
+// ClearOnUnlock removes the OnUnlock callback.
+func (l *Locker) ClearOnUnlock() { atomMu.Lock(); l.OnUnlock = nil; atomMu.Unlock() }
+
+func (l *Locker) HeldByMe() bool { return l.held.Load() }
 
 func Sends(c any) int { return -1 }
